@@ -130,7 +130,9 @@ def main(ctx):
             acases.append({'seed': rng.randint(0, 10 ** 9), 'engine': eng, 'model': m, 'state': neel(L), 'options': opts,
                            't0_ticks': rng.choice([0, 0, 5, 100]), 'e0_units': rng.choice([0, 0, 3, 17]), 'runs': runs,
                            'imag': imag, 'direct_run_evolution': rng.random() < 0.3})
-            if 'ExpMPO' in eng and opts.get('compression_method') in ('SVD', 'zip_up') and rep % 2 == 1:
+            if 'ExpMPO' in eng and opts.get('compression_method') in ('SVD', 'zip_up') and rep % 2 == 1 and not infinite:
+                # (finite only: MPS.compress_svd of an infinite MPS sweeps several times over the unit cell and reports the
+                # error of part of these sweeps, so 'the truncations it performed' is not a sum over all truncate() calls there)
                 # errors injected one level deeper: at every truncate() inside MPO.apply (apply_zipup + compress_svd),
                 # so that the sum MPO.apply returns is itself compared with the truncations performed
                 acases[-1]['inject'] = 'truncate'
